@@ -299,6 +299,21 @@ def _add(bundle: Bundle, val: BundleAttr) -> BundleAttr:
         msg = f"Invalid Bundle attribute {val} for {bundle}"
         raise TypeError(msg)
 
+    # If the name is already taken, its previous holder is replaced: remove it from its type-specific container.
+    # And an attribute has a single name: if `val` is already here under another one, this is a re-naming.
+    stale = [(val.name, bundle.namespace.get(val.name, None))]
+    stale += [(n, attr) for n, attr in bundle.namespace.items() if attr is val]
+    ctrs = [bundle.signals, bundle.bundles]
+    if bundle.roles is not None:
+        ctrs.append(bundle.roles.inner)
+    for name, attr in stale:
+        if attr is None or (attr is val and name == val.name):
+            continue
+        bundle.namespace.pop(name, None)
+        for ctr in ctrs:
+            if ctr.get(name, None) is attr:
+                ctr.pop(name)
+
     # Add it to the bundle namespace, and the type-specific container
     type_ctr[val.name] = val
     bundle.namespace[val.name] = val
